@@ -316,7 +316,13 @@ TEXT_PINS = [
     ('src/card/rank.rs', 'Display for Rank', 'f4545eb6859365c1'),
     ('src/card/suit.rs', 'Display for Suit', '056b6068ec329622'),
 ]
+# the constructors by collection rest on std's collect-into-HashMap (a later entry replaces an earlier one): assumed, pinned
+BUILD_PINS = [
+    ('src/hand_range/hand_range.rs', 'FromIterator<(CardPair, f32)> for HandRange', 'f9efcb81763b0df0'),
+    ('src/hand_range/hand_range.rs', 'FromIterator<CardPair> for HandRange', 'd564c479e453854c'),
+]
 MULTI['C06']['pins'] = TEXT_PINS
-MULTI['C17']['pins'] = TEXT_PINS
+MULTI['C17']['pins'] = TEXT_PINS + BUILD_PINS
+MULTI['C17']['assumptions'] = MULTI['C17']['assumptions'] + ['the two FromIterator impls of HandRange (collect into the map: a later entry replaces an earlier one) are assumed std behaviour and pinned like the text layer']
 for _p in ('C06', 'C17'):
     MULTI[_p]['assumptions'] = MULTI[_p]['assumptions'] + ['the assumed text layer is PINNED: the tail of Display for HandRange (from `let mut res = f.write_str(` on) and the Display impls of HandRangeToken, RankPair, CardPair, Card, Rank, Suit carry fingerprints; a change voids the assumption, the run becomes undecided and the failing-input search (format / parse / compare on the real crate) decides']
